@@ -321,7 +321,7 @@ func Monitor(spec *Spec, tr *Trace) []Finding {
 		}
 
 		// ---- DepthFirstSort (C16) -------------------------------------------------------------
-		if ng == 1 {
+		if ng == 1 && spec.PreTasks == 0 {
 			if tr.SortErr != "" {
 				add("C16", "DepthFirstSort of an acyclic graph failed: %s", tr.SortErr)
 			} else {
